@@ -156,11 +156,11 @@ def _data(rng, dtype, dsize, rows=None):
     if rows is None:
         rows = rng.choice([0, 0, 1, 1, 2, 3, 5])
         if rng.random() < 0.03:
-            rows = 13000 // (DTYPES[dtype] * dsize) + 1          # larger than tarfile's 10 KiB record
+            rows = 1300 // (DTYPES[dtype] * dsize) + 1           # several 512-byte tar blocks
     n = rows * dsize * DTYPES[dtype]
-    if n > 64:
-        return bytes(rng.choice(ASCII_FILL) for _ in range(n))
-    if rng.random() < 0.3:
+    # contents are opaque to this property (bit identity only): mostly printable bytes keep the Coq shards small,
+    # short arrays also take arbitrary bytes (NUL, 0xff, NaN patterns)
+    if n > 32 or rng.random() < 0.5:
         return bytes(rng.choice(ASCII_FILL) for _ in range(n))
     return rng.randbytes(n)
 
@@ -310,7 +310,7 @@ def _gen_append(rng, mode):
     ops = []
     for _ in range(n_ops):
         spelling = _pick_spelling(rng, rng.choice(['plain', 'plain', 'api'])) if api == 'handler' else 'plain'
-        big = mode == 'kill' and rng.random() < 0.15
+        big = rng.random() < (0.15 if mode == 'kill' else 0.04)      # beyond tarfile's 10 KiB record and the 8 KiB buffer
         ops.append([key(), _data(rng, dtype, dsize, rows=(13000 // (DTYPES[dtype] * dsize) + 1) if big else None).hex(), spelling])
     sessions = [n_ops]
     if mode == 'inproc' and n_ops >= 2 and rng.random() < 0.4:
